@@ -160,21 +160,26 @@ Definition Tinv (st : state) : Prop :=
   tagjob_ok st /\ covered st /\ Cinv st /\ convs_ok st /\ mergejob_ok st.
 
 (* on a closed, bounded tag list inheritTagUncertainty changes nothing *)
-Lemma tu_bounded nx ts x : tags_bounded nx ts -> bounded nx (tu x ts).
+Definition u_bounded (nx : N) (ts : tags_t) : Prop := forall n t, In (n, t) ts -> bounded nx (t_u t).
+
+Lemma tags_u_bounded nx ts : tags_bounded nx ts -> u_bounded nx ts.
+Proof. intros B n t I. exact (proj1 (B n t I)). Qed.
+
+Lemma tu_bounded nx ts x : u_bounded nx ts -> bounded nx (tu x ts).
 Proof.
   intros B. unfold tu. destruct (tget x ts) as [t|] eqn:T; [|apply bounded_0].
-  destruct (tget_In _ _ _ T) as (I & _). exact (proj1 (B x t I)).
+  destruct (tget_In _ _ _ T) as (I & _). exact (B x t I).
 Qed.
 
 Lemma tag_eta t : mkTag0 (t_def t) (t_m t) (t_u t) (t_conv t) (t_live t) = t.
 Proof. destruct t; reflexivity. Qed.
 
-Lemma inherit_closed_id nx ts : closed nx ts -> tags_bounded nx ts -> inherit (ones nx) ts = ts.
+Lemma inherit_closed_id nx ts : closed nx ts -> u_bounded nx ts -> inherit (ones nx) ts = ts.
 Proof.
   induction ts as [|[k t] r IH]; simpl; [reflexivity|]. intros (C1 & C2 & C3) B.
-  assert (tags_bounded nx r) as Br by (intros n0 t0 I; apply (B n0 t0); right; exact I).
+  assert (u_bounded nx r) as Br by (intros n0 t0 I; apply (B n0 t0); right; exact I).
   rewrite (IH C3 Br). f_equal. f_equal.
-  destruct (B k t (or_introl eq_refl)) as (Bu & _).
+  pose proof (B k t (or_introl eq_refl)) as Bu.
   unfold inherit_one. destruct (d_main (t_def t)) eqn:EM; destruct (d_subt (t_def t)) eqn:ES; [reflexivity| | |];
     rewrite <- ?EM, <- ?ES in *.
   all: match goal with |- context[if ?b then _ else _] => destruct b eqn:EX end.
@@ -641,7 +646,7 @@ Proof.
     apply lex_tl. apply is0_true in SZ.
     (* tags and masks are unchanged *)
     assert (tags pre = tags st) as TG.
-    { unfold pre, cconv_pre. simpl. rewrite SZ, data_tags_zero. apply inherit_closed_id; assumption. }
+    { unfold pre, cconv_pre. simpl. rewrite SZ, data_tags_zero. apply inherit_closed_id; [assumption|apply tags_u_bounded; assumption]. }
     assert (m_upd pre = m_upd st /\ m_rst pre = m_rst st /\ m_add pre = m_add st) as (MU & MR & MA).
     { unfold pre, cconv_pre. simpl. rewrite SZ. unfold union. rewrite N.lor_0_r. auto. }
     assert (start_tagging p pre = pre) as STG.
@@ -681,4 +686,197 @@ Proof.
       * apply In_ids_lt. exact Ii.
       * rewrite (PC c0 i (or_introl eq_refl)), Mi. unfold pot, doomed. rewrite J, Mi. destruct (cache st c0 i); lia.
   - apply HB. intros c i _ Ii. exact (existsb_false_all _ _ EI i Ii).
+Qed.
+
+(* ---------------------------------------------------------------- tagging job completion *)
+Definition ctag_pre (st : state) (n : N) (d : defn) (snap : list (N * N)) (res : N) : state :=
+  let st0 := set_jtag st None in
+  match tget n (tags st0) with
+  | Some ot =>
+    if defn_eqb (t_def ot) d then
+      let stq := queue_matches st0 (t_conv ot) res in
+      let ts1 := tset n (mkTag d res (u1_of (tags st0) snap d (all st0)) (t_conv ot)) (tags stq) in
+      set_tags stq (if dirty_of st then invalidate_tags repaired (all st0) (m_upd st0) (m_rst st0) (m_add st0) ts1
+                    else inherit (all st0) ts1)
+    else st0
+  | None => st0
+  end.
+
+Lemma ctag_eq st p n d m0 u0 cv snap h res : jtag st = Some (mkTj n d m0 u0 cv snap h (Some res)) ->
+  step repaired p (AComplete JTag) st = start_merge (start_converter (start_tagging p (ctag_pre st n d snap res))).
+Proof.
+  intros J. simpl. rewrite J. unfold ctag_pre, dirty_of, u1_of. simpl.
+  destruct (tget n (tags st)); [|reflexivity]. destruct (defn_eqb (t_def t) d); reflexivity.
+Qed.
+
+Lemma ctag_pre_fields st n d snap res :
+  let pre := ctag_pre st n d snap res in
+  jtag pre = None /\ queue pre = queue st /\ jimp pre = jimp st /\ cache pre = cache st /\ next pre = next st /\
+  convs pre = convs st /\ jconv pre = jconv st /\ m_cupd pre = m_cupd st /\ m_upd pre = m_upd st /\ m_rst pre = m_rst st /\
+  m_add pre = m_add st.
+Proof.
+  unfold ctag_pre. simpl. destruct (tget n (tags st)); [|repeat split]. destruct (defn_eqb (t_def t) d); repeat split.
+Qed.
+
+Lemma all_certain_no_uncertain ts : all_certain ts = true -> filter uncertain ts = [].
+Proof.
+  unfold all_certain, uncertain. induction ts as [|[k t] r IH]; simpl; [reflexivity|]. intros H.
+  apply andb_true_iff in H. destruct H as [H1 H2]. rewrite H1, andb_false_r. apply IH. exact H2.
+Qed.
+
+Lemma deadok_dead_clean ts : deadok ts -> dead_clean ts.
+Proof. intros D n t I L. exact (proj1 (D n t I L)). Qed.
+
+(* dead slots are not touched by invalidateTags / inheritTagUncertainty *)
+Lemma deadok_inherit allS ts : deadok ts -> deadok (inherit allS ts).
+Proof.
+  induction ts as [|[k t] r IH]; simpl; intros D; [exact D|].
+  assert (deadok r) as Dr by (intros n0 t0 I; apply (D n0 t0); right; exact I).
+  intros n0 t0 [E|I] L; [|apply (IH Dr n0 t0 I L)]. inversion E; subst; clear E.
+  destruct (inherit_one_rest allS (inherit allS r) t) as (E1 & E2 & E3 & _). rewrite E3 in L.
+  destruct (D n0 t (or_introl eq_refl) L) as (U0 & R0 & D0). rewrite E1. split; [|split; assumption].
+  rewrite inherit_one_u. unfold d_refs in R0. apply app_eq_nil in R0. destruct R0 as (RM & RS). rewrite RM, RS. simpl. exact U0.
+Qed.
+
+Lemma deadok_map_inval k allS u r a ts : deadok ts -> deadok (map (fun nt => (fst nt, invalidate_one k allS u r a (snd nt))) ts).
+Proof.
+  intros D n t I L. apply in_map_iff in I. destruct I as ([k0 t0] & E & I0). simpl in E. inversion E; subst; clear E.
+  destruct (invalidate_one_rest k allS u r a t0) as (E1 & E2 & E3). rewrite E2 in L.
+  destruct (D n t0 I0 L) as (U0 & R0 & D0). rewrite E1. split; [|split; assumption].
+  unfold invalidate_one. rewrite L. simpl. exact U0.
+Qed.
+
+Lemma deadok_tset n tp ts : t_live tp = true -> deadok ts -> deadok (tset n tp ts).
+Proof.
+  intros L D k t I Ld. destruct (In_tset _ _ _ _ _ I) as [(-> & ->)|(_ & I0)]; [congruence|apply (D k t I0 Ld)].
+Qed.
+
+Lemma tu_tset n tp ts x : tu x (tset n tp ts) = tu x ts \/ (x = n /\ tu x (tset n tp ts) = (if t_live tp then t_u tp else 0)).
+Proof.
+  unfold tset, tu. induction ts as [|[k t] r IH]; simpl; [left; reflexivity|].
+  destruct (N.eqb_spec k n) as [->|NE]; simpl.
+  - destruct (N.eqb_spec n x) as [->|NX]; [right; split; [reflexivity|destruct (t_live tp); reflexivity]|exact IH].
+  - destruct (k =? x); [left; reflexivity|exact IH].
+Qed.
+
+(* setting one tag certain keeps the list closed when everything it references is certain *)
+Lemma closed_tset_zero nx n tp ts :
+  closed nx ts -> t_u tp = 0 -> t_live tp = true ->
+  (forall pre t r, ts = pre ++ (n, t) :: r -> forall x, In x (d_refs (t_def tp)) -> tu x r = 0) ->
+  (forall k t, In (k, t) ts -> k = n -> t_def t = t_def tp) ->
+  closed nx (tset n tp ts).
+Proof.
+  intros C U0 L R DD. revert C R DD. unfold tset. induction ts as [|[k t] r IH]; intros C R DD; [exact I|].
+  simpl in C. destruct C as (C1 & C2 & C3).
+  assert (closed nx (map (fun kt => if fst kt =? n then (fst kt, tp) else kt) r)) as CR.
+  { apply IH; [exact C3| |intros k0 t0 I0; apply DD; right; exact I0].
+    intros pre t0 r0 E. apply (R ((k, t) :: pre) t0 r0). rewrite E. reflexivity. }
+  assert (forall x i, mem i (tu x (map (fun kt => if fst kt =? n then (fst kt, tp) else kt) r)) = true -> mem i (tu x r) = true) as SUB.
+  { intros x i H. destruct (tu_tset n tp r x) as [E|(_ & E)]; unfold tset in E; rewrite E in H; [exact H|].
+    rewrite L, U0, mem_0 in H. discriminate. }
+  simpl. destruct (N.eqb_spec k n) as [->|NE]; simpl.
+  - split; [|split; [|exact CR]].
+    + intros x Hx id Hid Hm. apply SUB in Hm. rewrite (R [] t r eq_refl x) in Hm; [rewrite mem_0 in Hm; discriminate|apply in_or_app; left; exact Hx].
+    + intros x Hx Hne. exfalso. apply Hne. apply mem_ext. intros i. rewrite mem_0.
+      destruct (mem i (tu x (map _ r))) eqn:E; [|reflexivity]. apply SUB in E.
+      rewrite (R [] t r eq_refl x) in E; [rewrite mem_0 in E; discriminate|apply in_or_app; right; exact Hx].
+  - split; [|split; [|exact CR]].
+    + intros x Hx id Hid Hm. apply (C1 x Hx id Hid). apply SUB. exact Hm.
+    + intros x Hx Hne. apply (C2 x Hx). intros E0. apply Hne. apply mem_ext. intros i. rewrite mem_0.
+      destruct (mem i (tu x (map _ r))) eqn:E; [|reflexivity]. apply SUB in E. rewrite E0, mem_0 in E. discriminate.
+Qed.
+
+Lemma count_tset n tp ot ts :
+  sorted ts -> In (n, ot) ts -> uncertain (n, ot) = true -> uncertain (n, tp) = false ->
+  (length (filter uncertain (tset n tp ts)) + 1 = length (filter uncertain ts))%nat.
+Proof.
+  unfold tset. induction ts as [|[k t] r IH]; simpl; intros S I U1 U2; [destruct I|].
+  destruct S as (S1 & S2). destruct (N.eqb_spec k n) as [->|NE].
+  - assert (t = ot) as -> by (destruct I as [E|I]; [inversion E; reflexivity|apply S1 in I; lia]).
+    simpl. unfold uncertain in U1, U2 |- *. simpl in *. rewrite U1, U2. simpl.
+    assert (map (fun kt => if fst kt =? n then (fst kt, tp) else kt) r = r) as ->; [|lia].
+    rewrite <- (map_id r) at 2. apply map_ext_in. intros [k0 t0] I0. simpl. destruct (N.eqb_spec k0 n); [|reflexivity].
+    subst. apply S1 in I0. lia.
+  - destruct I as [E|I]; [inversion E; congruence|]. simpl. specialize (IH S2 I U1 U2).
+    destruct (uncertain (k, t)); simpl; lia.
+Qed.
+
+Lemma c_z_nojob st : jtag st = None -> c_z st = 0%nat.
+Proof. unfold c_z. intros ->. reflexivity. Qed.
+
+Lemma after_tagging_z p Y : jtag Y = None -> c_z (start_tagging p Y) = 0%nat.
+Proof.
+  intros J. destruct (start_tagging_cases p Y J) as [(_ & ->)|(n & t & T & _ & E)]; [apply c_z_nojob; exact J|].
+  exact (proj1 (start_tagging_started p Y n t E T)).
+Qed.
+
+Lemma dec_ctag st p n d m0 u0 cv snap h res : Tinv st -> jtag st = Some (mkTj n d m0 u0 cv snap h (Some res)) ->
+  lexlt (mu (step repaired p (AComplete JTag) st)) (mu st).
+Proof.
+  intros (So & Ra & Dk & TB & BU & BR & BA & CL & TJ & _) J.
+  rewrite (ctag_eq st p n d m0 u0 cv snap h res J). set (pre := ctag_pre st n d snap res).
+  destruct (ctag_pre_fields st n d snap res) as (F1 & F2 & F3 & F4 & F5 & F6 & F7 & F8 & F9 & F10 & F11). fold pre in F1, F2, F3, F4, F5, F6, F7, F8, F9, F10, F11.
+  destruct (after_starts_mu p pre) as (E1 & E2 & E3 & E4 & E5 & E6 & E7 & E8). cbv zeta in *.
+  set (X := start_merge (start_converter (start_tagging p pre))) in *.
+  destruct (start_tagging_mu_same p pre) as (_ & _ & SP & _).
+  unfold mu. rewrite E1, E2, E3, SP, E4, (after_tagging_z p pre F1).
+  rewrite (c_imp_frame st pre F2 F3).
+  assert (c_e3 pre = c_e3 st) as -> by (apply c_e3_frame; try assumption; intros i; unfold doomed; rewrite F7, F8; reflexivity).
+  assert (c_p pre = c_p st) as -> by (unfold c_p; rewrite F7; reflexivity).
+  do 3 apply lex_tl.
+  destruct (TJ _ J) as (_ & _ & _ & TU & TR). simpl in TU, TR.
+  unfold c_z at 1. rewrite J.
+  destruct (clean st (mkTj n d m0 u0 cv snap h (Some res))) eqn:CLN; [|apply lex_hd; [lia|reflexivity]].
+  apply lex_tl.
+  (* a clean job publishes with Uncertain = 0 *)
+  destruct (TU eq_refl) as (ot & iu & Tn & Hu). unfold clean in CLN. simpl in CLN. rewrite Tn in CLN.
+  apply andb_true_iff in CLN. destruct CLN as (DE & U1). apply defn_eqb_eq in DE. apply is0_true in U1. subst d.
+  destruct (tget_In _ _ _ Tn) as (In_n & Ln).
+  set (tp := mkTag (t_def ot) res 0 (t_conv ot)).
+  assert (Forall2 same1 (tags st) (tset n tp (tags st))) as SM1.
+  { apply Forall2_tset; [intros; repeat split|]. intros k0 t0 I0 ->.
+    assert (t0 = ot) as -> by (eapply sorted_unique; eassumption). unfold same1; simpl; repeat split. exact Ln. }
+  assert (tags pre = (if dirty_of st then invalidate_tags repaired (all st) (m_upd st) (m_rst st) (m_add st) (tset n tp (tags st))
+                      else inherit (all st) (tset n tp (tags st)))) as TG.
+  { unfold pre, ctag_pre. cbv zeta. change (tags (set_jtag st None)) with (tags st). change (all (set_jtag st None)) with (all st).
+    rewrite Tn, defn_eqb_refl, U1. reflexivity. }
+  assert (c_t st >= 1)%nat as T1.
+  { unfold c_t. assert (In (n, ot) (filter uncertain (tags st))) as IF.
+    { apply filter_In. split; [exact In_n|]. unfold uncertain. simpl. rewrite Ln. simpl.
+      rewrite (ne0_of_mem iu _ Hu). reflexivity. }
+    destruct (filter uncertain (tags st)); [destruct IF|simpl; lia]. }
+  destruct (dirty_of st) eqn:DI.
+  - (* imports / converter results arrived during the job *)
+    assert (c_d st = 1%nat) as -> by (unfold c_d; rewrite DI; reflexivity).
+    destruct (start_tagging_cases p pre F1) as [(FE & EQ)|(n1 & t1 & T1' & _ & EQ)].
+    + rewrite E5, E6, EQ.
+      assert (c_d pre = 1%nat) as -> by (unfold c_d, dirty_of in *; rewrite F9, F10, F11, DI; reflexivity).
+      apply lex_tl. apply lex_hd; [|reflexivity].
+      assert (all_certain (tags pre) = true) as AC.
+      { destruct (all_certain (tags pre)) eqn:AC; [reflexivity|]. exfalso.
+        apply (eligible_exists (tags pre)); try assumption; rewrite TG.
+        - eapply sorted_same; [|exact So]. eapply Forall2_trans_same; [exact SM1|eapply grow_same; apply grow_invalidate_tags].
+        - eapply ranked_same; [|exact Ra]. eapply Forall2_trans_same; [exact SM1|eapply grow_same; apply grow_invalidate_tags].
+        - apply deadok_dead_clean. unfold invalidate_tags. apply deadok_inherit, deadok_map_inval, deadok_tset; [reflexivity|exact Dk]. }
+      unfold c_t at 1. rewrite (all_certain_no_uncertain _ AC). simpl. lia.
+    + rewrite E5. rewrite (proj1 (proj2 (start_tagging_started p pre n1 t1 EQ T1'))). apply lex_hd; [lia|reflexivity].
+  - (* nothing arrived: the tag becomes certain and nothing else changes *)
+    assert (c_d st = 0%nat) as -> by (unfold c_d; rewrite DI; reflexivity).
+    assert (c_d X = 0%nat) as ->.
+    { rewrite E5. destruct (start_tagging_cases p pre F1) as [(_ & ->)|(n1 & t1 & T1' & _ & EQ)].
+      - unfold c_d, dirty_of in *. rewrite F9, F10, F11, DI. reflexivity.
+      - exact (proj1 (proj2 (start_tagging_started p pre n1 t1 EQ T1'))). }
+    apply lex_tl. apply lex_hd; [|reflexivity]. rewrite E6.
+    assert (inherit (all st) (tset n tp (tags st)) = tset n tp (tags st)) as IH.
+    { unfold all. apply inherit_closed_id.
+      - apply closed_tset_zero; try assumption; try reflexivity.
+        + intros pr t r Esp x Hx. destruct (Ra n ot In_n Ln) as (Rf & _). destruct (Rf x Hx) as (Lx & _).
+          rewrite <- (TR eq_refl x Hx). unfold tu. rewrite Esp.
+          rewrite (tget_tail pr n t r x); [reflexivity|rewrite <- Esp; exact So|exact Lx].
+        + intros k0 t0 I0 ->. assert (t0 = ot) as -> by (eapply sorted_unique; eassumption). reflexivity.
+      - intros k0 t0 I0. destruct (In_tset _ _ _ _ _ I0) as [(-> & ->)|(_ & I1)]; [apply bounded_0|exact (proj1 (TB k0 t0 I1))]. }
+    unfold c_t. rewrite TG, IH.
+    pose proof (count_tset n tp ot (tags st) So In_n) as CT.
+    assert (uncertain (n, ot) = true) as UO by (unfold uncertain; simpl; rewrite Ln, (ne0_of_mem iu _ Hu); reflexivity).
+    specialize (CT UO eq_refl). lia.
 Qed.
